@@ -12,8 +12,11 @@ Streams (all randomness from run.seed; case counts fixed per tier):
                 layers carry real quantizers, against `Sched.step`; np.power enters the model as an
                 oracle table (device 2), every other float64/float32 step is simulated; clause
                 oracle on the observed factor sequence.
-  D  layers     get_quantizers on real Keras/QKeras models vs an independent object-graph walk;
-                one tiny model.fit to confirm the hook order Keras uses.
+  D  layers     get_quantizers on real Keras/QKeras models (activation quantizers, recurrent cells,
+                wrappers, nested models, shared objects) vs the Lean walk over the same layer structure and
+                vs an independent object-graph walk (clause: every knob-bearing quantizer, each once);
+                tiny model.fit runs: hook order, factors, and every quantizer of the model holds the
+                applied factor afterwards.
 """
 import itertools
 import fractions
@@ -179,7 +182,7 @@ def stream_mix(run, tier, Q, tf, rng):
   x = np.concatenate([grid, special, rnd]).astype(np.float32)
   fs_dy = [0.0, 0.25, 0.5, 0.75, 1.0]
   fs_other = [0.1, 0.3, 0.7, 1.0 / 3.0, 0.999] + [float(v) for v in rng.uniform(0, 1, size=3 if tier == "quick" else 12)]
-  routes = ["ctor_py", "upd_py", "ctor_var", "upd_var", "upd_before_build_var"]
+  routes = ["ctor_py", "upd_py", "ctor_var", "upd_var", "upd_before_build_var", "upd_from_var_py"]
   lines, meta = [], []
   for label, cname, kw, sur, form in CONFIGS:
     s_np = sur(kw, x)
@@ -217,6 +220,17 @@ def stream_mix(run, tier, Q, tf, rng):
             q = _mk(Q, cname, kw, use_variables=True, **ste_kw)
             _call(q, x[:1])
             q.update_qnoise_factor(np.float64(f))
+          elif route == "upd_from_var_py":
+            # update API handed a tf.Variable while the factor is still a python number
+            q = _mk(Q, cname, kw, **ste_kw)
+            try:
+              q.update_qnoise_factor(tf.Variable(f, dtype=tf.float32, trainable=False))
+            except Exception as e:  # pylint: disable=broad-except
+              run.violate("update_api_raises", {"op": "update_from_var", "store": "py", "error": type(e).__name__},
+                          {"cfg": label, "f": f, "error": repr(e)[:200],
+                           "replay": "%s(**%r).update_qnoise_factor(tf.Variable(%r)) raises" % (cname, kw, f)},
+                          mirrored=False)
+              continue
           else:
             q = _mk(Q, cname, kw, use_variables=True, **ste_kw)
             q.update_qnoise_factor(f)
@@ -430,7 +444,7 @@ def _qjson(tf, q, tag):
 
 
 def _stub_models(Q, x1):
-  """name -> builder returning (layers, [all quantizer objects in tag order])"""
+  """name -> builder returning the list of (stub) layers of a model"""
   def built(q):
     _call(q, x1)
     return q
@@ -456,6 +470,7 @@ def _stub_models(Q, x1):
   def m_noknob():
     l1, l2 = _Stub(), _Stub()
     l2.quantizers = [Q.binary(), Q.ternary()]
+    l2.activation = Q.quantized_tanh(4)
     return [l1, l2]
 
   def m_linear_mid():
@@ -476,6 +491,14 @@ def _stub_models(Q, x1):
     l2.quantizer = p
     return [l1, l2]
 
+  def m_linear_built():
+    # a quantized_linear already built with a python-float factor: set_quantizers rebuilds it
+    ln = built(Q.quantized_linear(4, 1, qnoise_factor=0.5))
+    l1 = _Stub()
+    l1.quantizers = [None, ln]
+    l1.activation = Q.quantized_linear(6, 2)
+    return [l1]
+
   def m_both_attrs():
     p = Q.quantized_relu_po2(4)
     a = Q.quantized_bits(4, 0, 1)
@@ -488,39 +511,89 @@ def _stub_models(Q, x1):
     return [l1, l2]
 
   def m_hidden():
+    # QDense-like: kernel / bias quantizers, the same list through get_quantizers(), quantizer activation
     a, b = Q.quantized_bits(4, 0, 1), Q.quantized_bits(4, 0, 1)
     act = Q.quantized_relu(4, 1)
     l1 = _Stub()
     l1.quantizers = [a, b]
+    l1.get_quantizers = lambda: l1.quantizers
     l1.activation = act
     return [l1]
 
+  def m_cell():
+    # QLSTM-like: no `quantizers` on the layer, get_quantizers() = the cell's list, the cell holds the
+    # activations; a built Variable-backed state quantizer
+    k, r = Q.quantized_bits(4, 0, 1), Q.quantized_po2(4)
+    st = built(Q.quantized_bits(6, 1, 1, use_variables=True, qnoise_factor=0.75))
+    cell, l1, l2 = _Stub(), _Stub(), _Stub()
+    cell.quantizers = [k, r, None, st]
+    cell.activation = Q.quantized_relu(4, 1)
+    cell.recurrent_activation = built(Q.quantized_bits(4, 0, 1))
+    l1.cell = cell
+    l1.get_quantizers = lambda: cell.quantizers
+    l1.activation = cell.activation
+    l1.recurrent_activation = cell.recurrent_activation
+    l2.quantizer = Q.quantized_relu(6, 2)
+    return [l1, l2]
+
+  def m_nested():
+    # nested model two levels deep, a bidirectional-like wrapper, an object shared between layers
+    shared = Q.quantized_bits(4, 0, 1)
+    inner2, inner1, a1, a2, d, fw, bw, w = (_Stub() for _ in range(8))
+    a2.quantizer = Q.quantized_relu(4, 1)
+    inner2.layers = [a2]
+    d.quantizers = [shared, Q.quantized_linear(4, 1)]
+    d.activation = Q.quantized_hswish(8, 2)
+    inner1.layers = [d, inner2]
+    fw.quantizers = [shared, Q.quantized_relu_po2(4)]
+    bw.quantizers = [Q.quantized_bits(5, 1, 1, qnoise_factor=0.5)]
+    w.forward_layer, w.backward_layer, w.layer = fw, bw, fw
+    w.get_quantizers = lambda: fw.quantizers + bw.quantizers
+    a1.quantizer = shared
+    return [inner1, w, a1]
+
   return {"std": m_std, "built_mixed": m_built_mixed, "noknob": m_noknob, "linear_mid": m_linear_mid,
-          "linear_first": m_linear_first, "both_attrs": m_both_attrs, "hidden": m_hidden}
+          "linear_first": m_linear_first, "linear_built": m_linear_built, "both_attrs": m_both_attrs,
+          "hidden": m_hidden, "cell": m_cell, "nested": m_nested}
+
+
+_HOLDERS = ("quantizers", "quantizer", "get_quantizers", "activation", "recurrent_activation")
+_SUBLAYERS = ("layers", "cell", "forward_layer", "backward_layer", "layer")
 
 
 def _layers_json(tf, layers):
-  """Lean layer records (tags = discovery order) + tag -> object map"""
-  objs, out = [], []
+  """Lean layer records (QKV.Sched.Layer: own holder attributes + held layers, recursively; tags = object
+  identity in discovery order) + tag -> object list"""
+  objs = []
 
   def tag_of(q):
+    for t, o in enumerate(objs):
+      if o is q:
+        return t
     objs.append(q)
     return len(objs) - 1
 
-  for l in layers:
+  def record(l):
     d = {}
     if hasattr(l, "quantizers"):
       d["quantizers"] = [_qjson(tf, q, tag_of(q)) for q in l.quantizers]
     if hasattr(l, "quantizer"):
       d["quantizer"] = _qjson(tf, l.quantizer, tag_of(l.quantizer))
-    hid = []
-    for name in ("activation",):
-      q = getattr(l, name, None)
-      if q is not None and hasattr(q, "qnoise_factor"):
-        hid.append(_qjson(tf, q, tag_of(q)))
-    d["hidden"] = hid
-    out.append(d)
-  return out, objs
+    if hasattr(l, "get_quantizers"):
+      d["api"] = [_qjson(tf, q, tag_of(q)) for q in l.get_quantizers()]
+    if hasattr(l, "activation"):
+      d["activation"] = _qjson(tf, l.activation, tag_of(l.activation))
+    if hasattr(l, "recurrent_activation"):
+      d["recurrent_activation"] = _qjson(tf, l.recurrent_activation, tag_of(l.recurrent_activation))
+    sub = []
+    for name in _SUBLAYERS:
+      if hasattr(l, name):
+        v = getattr(l, name)
+        sub += [record(x) for x in (v if name == "layers" else [v])]
+    d["sub"] = sub
+    return d
+
+  return [record(l) for l in layers], objs
 
 
 def _pw_table(start, finish, exponent, lo, hi):
@@ -623,7 +696,7 @@ def stream_sched(run, tier, Q, tf, rng):
              (0, 3, 0.5, 2, "epoch", 1)]
   max_len = 4 if tier == "quick" else 6
   for c in ex_cfgs:
-    for mname in ("std", "linear_mid"):
+    for mname in ("std", "linear_mid", "nested"):
       for n in range(1, max_len + 1):
         for ev in itertools.product("TEBF", repeat=n):
           jobs.append((c, mname, list(ev), "exhaustive"))
@@ -638,17 +711,20 @@ def stream_sched(run, tier, Q, tf, rng):
     m.layers = layers
     cb.model = m
     ljson, objs = _layers_json(tf, layers)
-    ro_linear = any(_qkind(q) == "linear" and not q.use_variables for q in objs)
     steps = _drive(tf, cb, objs, ev, x1)
+    # every knob-bearing quantizer object of the model (independent object-graph walk), read at the end
+    from qkeras.base_quantizer import BaseQuantizer
+    final_all = [(_holder(path), q.__class__.__name__, _obs(tf, q)["v"])
+                 for path, q in _walk_model(tf, layers, BaseQuantizer)]
     n_ticks = sum(1 for e in ev if e == ("E" if ft == "epoch" else "B"))
     cfgj = {"start": start, "finish": finish, "step_mode": ft == "step", "update_freq": uf,
             "initial": initial, "use_ste": use_ste}
     lines.append({"op": "sched", "cfg": cfgj, "layers": ljson, "events": ev,
                   "table": _pw_table(start, finish, exponent, initial, initial + n_ticks + 1)})
-    meta.append((c, mname, ev, kind, steps, use_ste, ro_linear))
+    meta.append((c, mname, ev, kind, steps, use_ste, final_all))
   outs = core.run_driver("C07", lines)
   n_updates = 0
-  for (c, mname, ev, kind, steps, use_ste, ro_linear), out in zip(meta, outs):
+  for (c, mname, ev, kind, steps, use_ste, final_all), out in zip(meta, outs):
     start, finish, exponent, uf, ft, initial = c
     run.case((c, mname, "".join(ev)),
              sample={"cfg": c, "model": mname, "events": "".join(ev),
@@ -682,8 +758,7 @@ def stream_sched(run, tier, Q, tf, rng):
     for i, (e, o) in enumerate(zip(ev, steps)):
       if o["raised"]:
         if keras_order:
-          cause = "quantized_linear" if (e == "T" and ro_linear and o["err"] == "AttributeError") else "other"
-          run.violate("hook_raises", {"hook": _HOOK.get(e, "forward"), "cause": cause, "error": o["err"]},
+          run.violate("hook_raises", {"hook": _HOOK.get(e, "forward"), "model": mname, "error": o["err"]},
                       {"cfg": c, "model": mname, "events": "".join(ev), "at": i, "error": o["err"],
                        "replay": "QNoiseScheduler%r on stub model %s, events %s" % (c, mname, "".join(ev))},
                       mirrored=(bad_at is None or i < bad_at))
@@ -720,6 +795,21 @@ def stream_sched(run, tier, Q, tf, rng):
               break
         elif freq % uf != 0:
           run.count("gate_closed")
+    # the property's last clause, judged on the objects themselves: once the callback has applied a factor,
+    # EVERY knob-bearing quantizer the model holds anywhere (found by the independent walk) holds it
+    last = steps[-1] if steps else None
+    if keras_order and last is not None and last["factor"] is not None and not any(o["raised"] for o in steps):
+      want = core.frac(np.float32(float(core.unrj(last["factor"]))))
+      for holder, cls, v in final_all:
+        run.count("sched_holder_%s" % holder)
+        if core.frac(np.float32(float(core.unrj(v)))) != want:
+          run.violate("applied_to_every_knob_quantizer_of_model", {"holder": holder},
+                      {"cfg": c, "model": mname, "events": "".join(ev), "factor": float(want),
+                       "quantizer": cls, "holds": float(core.unrj(v)),
+                       "replay": "QNoiseScheduler%r on stub model %s, events %s: the %s held in %s keeps %s"
+                                 % (c, mname, "".join(ev), cls, holder, float(core.unrj(v)))},
+                      mirrored=mirrored)
+          break
   run.extra["sched_histories"] = len(lines)
   run.extra["sched_update_steps_judged"] = n_updates
 
@@ -782,39 +872,64 @@ def stream_sched(run, tier, Q, tf, rng):
 
 # --------------------------------------------------------------------------- stream D
 
+_NAMED = ("quantizers", "quantizer", "activation", "recurrent_activation", "cell", "forward_layer",
+          "backward_layer", "layer", "layers")
+
+
 def _walk_quantizers(tf, layer, base_cls):
-  """all knob-bearing quantizer objects reachable from a layer, with the path that holds them"""
+  """independent of the callback's lookup: all knob-bearing quantizer objects reachable from a layer object
+  through its instance attributes (well-known names first, so that paths are readable, then everything in
+  vars()), descending into layers, stubs, lists and tuples only; returns [(attribute path, object)]"""
   found, seen = [], set()
 
   def visit(o, path, depth):
-    if o is None or depth > 4 or id(o) in seen:
+    if o is None or depth > 8:
       return
-    if isinstance(o, (str, bytes, int, float, bool, np.ndarray, tf.Tensor, tf.Variable, tf.TensorShape)):
-      return
-    seen.add(id(o))
     if isinstance(o, base_cls):
-      if hasattr(o, "qnoise_factor"):
+      if id(o) not in seen and hasattr(o, "qnoise_factor"):
         found.append((path, o))
+      seen.add(id(o))
       return
     if isinstance(o, (list, tuple)):
-      for i, v in enumerate(o):
+      for v in o:
         visit(v, path, depth + 1)
       return
-    if isinstance(o, dict):
-      return
-    if isinstance(o, tf.keras.layers.Layer) or isinstance(o, _Stub):
-      for name in ("quantizers", "quantizer", "activation", "cell", "forward_layer", "backward_layer", "layer",
-                   "layers"):
+    if isinstance(o, (tf.keras.layers.Layer, _Stub)):
+      if id(o) in seen:
+        return
+      seen.add(id(o))
+      names = list(_NAMED) + sorted(k for k in vars(o) if k not in _NAMED)
+      for name in names:
         try:
           v = getattr(o, name)
         except Exception:  # pylint: disable=broad-except
           continue
-        if callable(v) and not isinstance(v, (base_cls, tf.keras.layers.Layer)):
-          continue
-        visit(v, path + [name], depth + 1)
+        if isinstance(v, (base_cls, tf.keras.layers.Layer, _Stub, list, tuple)):
+          visit(v, path + [name], depth + 1)
 
   visit(layer, [], 0)
   return found
+
+
+def _walk_model(tf, layers, base_cls):
+  out, ids = [], set()
+  for i, l in enumerate(layers):
+    for path, q in _walk_quantizers(tf, l, base_cls):
+      if id(q) not in ids:
+        ids.add(id(q))
+        out.append((path, q))
+  return out
+
+
+def _holder(path):
+  """which kind of place holds the quantizer (key of a coverage violation)"""
+  if any(p in ("layers", "_self_tracked_trackables", "_layers") for p in path[:-1]):
+    return "submodel"
+  if "cell" in path:
+    return "cell"
+  if any(p in ("forward_layer", "backward_layer", "layer") for p in path):
+    return "wrapped"
+  return path[-1] if path else "?"
 
 
 def stream_layers(run, tier, Q, tf, rng):
@@ -838,24 +953,73 @@ def stream_layers(run, tier, Q, tf, rng):
     return tf.keras.Sequential([L.Input((6, 6, 2)),
                                 qkeras.QConv2D(2, 3, kernel_quantizer=qb(), bias_quantizer=None,
                                                activation=Q.quantized_relu(4, 1)),
-                                qkeras.QAveragePooling2D(2, average_quantizer=Q.quantized_bits(6, 0, 1)),
+                                qkeras.QAveragePooling2D(2, average_quantizer=Q.quantized_bits(6, 0, 1),
+                                                         activation=Q.quantized_bits(5, 1, 1)),
                                 L.Flatten()])
 
   def rnn():
     return tf.keras.Sequential([L.Input((3, 4)), qkeras.QSimpleRNN(3, kernel_quantizer=qb(),
                                                                     recurrent_quantizer=qb(), bias_quantizer=qb())])
 
+  def lstm_act():
+    return tf.keras.Sequential([L.Input((3, 4)),
+                                qkeras.QLSTM(3, activation=Q.quantized_relu(4, 1),
+                                             recurrent_activation=Q.quantized_bits(4, 0, 1),
+                                             kernel_quantizer=qb(), recurrent_quantizer=Q.quantized_po2(4),
+                                             bias_quantizer=qb(), state_quantizer=Q.quantized_bits(6, 1, 1))])
+
+  def bidir():
+    return tf.keras.Sequential([L.Input((3, 4)),
+                                qkeras.QBidirectional(qkeras.QGRU(2, activation=Q.quantized_relu(4, 1),
+                                                                  kernel_quantizer=qb(), recurrent_quantizer=qb(),
+                                                                  bias_quantizer=qb()))])
+
+  def generic_rnn():
+    return tf.keras.Sequential([L.Input((3, 4)),
+                                L.RNN(qkeras.QSimpleRNNCell(3, kernel_quantizer=qb(),
+                                                            state_quantizer=Q.quantized_bits(6, 1, 1)))])
+
+  def timedist():
+    return tf.keras.Sequential([L.Input((3, 4)),
+                                L.TimeDistributed(qkeras.QDense(2, kernel_quantizer=qb(), bias_quantizer=qb(),
+                                                                activation=Q.quantized_relu(4, 1)))])
+
   def nested():
     inner = tf.keras.Sequential([L.Input((4,)), qkeras.QActivation(Q.quantized_relu(4, 1))])
     return tf.keras.Sequential([L.Input((4,)), inner, qkeras.QActivation(Q.quantized_bits(4, 0, 1))])
+
+  def nested_deep():
+    x_in = L.Input((4,))
+    inner2 = tf.keras.Model(x_in, qkeras.QDense(4, kernel_quantizer=Q.quantized_linear(4, 1), bias_quantizer=qb(),
+                                                activation=Q.quantized_relu(4, 1))(x_in))
+    inner1 = tf.keras.Sequential([L.Input((4,)), inner2, qkeras.QActivation(Q.quantized_relu_po2(4))])
+    return tf.keras.Sequential([L.Input((4,)), qkeras.QActivation(Q.quantized_bits(6, 2, 1)), inner1,
+                                qkeras.QDense(2, kernel_quantizer=qb(), bias_quantizer=qb())])
+
+  def shared():
+    sh = qb()
+    return tf.keras.Sequential([L.Input((4,)), qkeras.QDense(3, kernel_quantizer=sh, bias_quantizer=sh),
+                                qkeras.QActivation(sh), qkeras.QDense(2, kernel_quantizer=sh)])
 
   def po2_relu_po2():
     return tf.keras.Sequential([L.Input((4,)), qkeras.QDense(3, kernel_quantizer=Q.quantized_po2(4),
                                                               bias_quantizer=Q.quantized_po2(4)),
                                 qkeras.QActivation(Q.quantized_relu_po2(4))])
 
+  def holders_fit():
+    # one model with a quantizer in every kind of place, small enough to train for a few steps
+    inner = tf.keras.Sequential([L.Input((3,)), qkeras.QActivation(Q.quantized_relu(4, 1))])
+    return tf.keras.Sequential([L.Input((3, 4)),
+                                qkeras.QSimpleRNN(3, activation=Q.quantized_relu(6, 2), kernel_quantizer=qb(),
+                                                  recurrent_quantizer=qb(), bias_quantizer=qb()),
+                                inner,
+                                qkeras.QDense(2, kernel_quantizer=Q.quantized_linear(4, 1), bias_quantizer=qb(),
+                                              activation=Q.quantized_bits(6, 2, 1))])
+
   builders = [("dense_act", dense_act), ("dense_plain", dense_plain), ("conv_act", conv_act), ("rnn", rnn),
-              ("nested", nested), ("po2", po2_relu_po2)]
+              ("lstm_act", lstm_act), ("bidir", bidir), ("generic_rnn", generic_rnn), ("timedist", timedist),
+              ("nested", nested), ("nested_deep", nested_deep), ("shared", shared), ("po2", po2_relu_po2),
+              ("holders_fit", holders_fit)]
   lines, meta = [], []
   for name, b in builders:
     try:
@@ -864,44 +1028,34 @@ def stream_layers(run, tier, Q, tf, rng):
       raise core.InfraError("cannot build model %s: %r" % (name, e))
     cb = QNoiseScheduler(0, 4)
     got = cb.get_quantizers(model)
-    objs, ljson, holders = [], [], {}
+    ljson, objs = _layers_json(tf, model.layers)
 
-    def tag_of(q):
+    def tag_of(q, objs=objs):
       for t, o in enumerate(objs):
         if o is q:
           return t
       objs.append(q)
       return len(objs) - 1
 
-    for layer in model.layers:
-      d = {}
-      if hasattr(layer, "quantizers"):
-        d["quantizers"] = [_qjson(tf, q, tag_of(q)) for q in layer.quantizers]
-      if hasattr(layer, "quantizer"):
-        d["quantizer"] = _qjson(tf, layer.quantizer, tag_of(layer.quantizer))
-      seen_here = {id(q) for q in (getattr(layer, "quantizers", None) or [])} | {id(getattr(layer, "quantizer", None))}
-      hid = []
-      for path, q in _walk_quantizers(tf, layer, BaseQuantizer):
-        t = tag_of(q)
-        holders.setdefault(t, "submodel" if "layers" in path else ("cell" if "cell" in path else path[0]))
-        if id(q) in seen_here:
-          continue
-        hid.append(_qjson(tf, q, t))
-      d["hidden"] = hid
-      ljson.append(d)
+    holders = {}
+    for path, q in _walk_model(tf, model.layers, BaseQuantizer):
+      holders.setdefault(tag_of(q), _holder(path))
     lines.append({"op": "getq", "layers": ljson})
-    meta.append((name, [tag_of(q) for q in got], objs, holders))
+    meta.append((name, [tag_of(q) for q in got], [q.__class__.__name__ for q in got],
+                 [hasattr(q, "qnoise_factor") for q in got], objs, holders))
   outs = core.run_driver("C07", lines)
-  for (name, got_tags, objs, holders), out in zip(meta, outs):
-    run.case(("getq", name), sample={"model": name, "get_quantizers": got_tags, "hidden": holders})
+  for (name, got_tags, got_cls, got_knob, objs, holders), out in zip(meta, outs):
+    run.case(("getq", name), sample={"model": name, "get_quantizers": got_tags, "classes": got_cls,
+                                     "held_in": holders, "before_fix_round": out["old_tags"]})
     run.compared += 1
     if got_tags != out["tags"]:
       run.disagree("get_quantizers", {"model": name}, got_tags, out["tags"])
     mirrored = got_tags == out["tags"]
-    if sorted(out["hidden_knob_tags"]) != sorted(t for t in holders if holders[t] not in ("quantizers", "quantizer")):
-      run.disagree("get_quantizers-hidden", {"model": name}, holders, out["hidden_knob_tags"])
-    # clause (judged on the real result against the independent object-graph walk): every knob-bearing
-    # quantizer of the model is returned
+    # the layer records (named holders) reach the same objects as the name-independent walk
+    if sorted(set(out["held_knob_tags"])) != sorted(holders):
+      run.disagree("get_quantizers-reach", {"model": name}, holders, out["held_knob_tags"])
+    # clauses (judged on the real result against the independent object-graph walk): every knob-bearing
+    # quantizer of the model is returned, each object once, nothing without the knob
     for t in sorted(holders):
       run.count("held_in_%s" % holders[t])
       if t not in got_tags:
@@ -909,15 +1063,25 @@ def stream_layers(run, tier, Q, tf, rng):
                     {"model": name, "missed_quantizer": objs[t].__class__.__name__, "held_in": holders[t],
                      "replay": "QNoiseScheduler(0,4).get_quantizers(<%s model>) misses the %s held in layer.%s"
                                % (name, objs[t].__class__.__name__, holders[t])}, mirrored=mirrored)
+    if len(set(got_tags)) != len(got_tags):
+      run.violate("listed_once", {"model": name}, {"model": name, "get_quantizers": got_tags,
+                                                   "classes": got_cls}, mirrored=mirrored)
+    if not all(got_knob):
+      run.violate("returns_only_knob_quantizers", {"model": name}, {"model": name, "classes": got_cls,
+                                                                    "has_knob": got_knob}, mirrored=mirrored)
 
-  # ---- one tiny fit: Keras calls the hooks in the modelled order, and the model run on that hook
-  #      sequence reproduces the factors the real training saw
-  fits = [(1, 3, "epoch", 1, 3.0)] if tier == "quick" else [(1, 3, "epoch", 1, 3.0), (2, 9, "step", 2, 2.0),
-                                                             (0, 4, "step", 1, 0.5)]
-  for (start, finish, ft, uf, exponent) in fits:
-    model = dense_plain()
+  # ---- tiny fits: Keras calls the hooks in the modelled order, the model run on that hook sequence
+  #      reproduces the factors the real training saw, and after training EVERY knob-bearing quantizer
+  #      of the model (independent walk) holds the last applied factor
+  fits = [("holders_fit", holders_fit, 1, 3, "epoch", 1, 3.0)]
+  if tier != "quick":
+    fits += [("dense_plain", dense_plain, 2, 9, "step", 2, 2.0), ("lstm_act", lstm_act, 0, 4, "step", 1, 0.5),
+             ("nested_deep", nested_deep, 1, 2, "epoch", 2, 2.5)]
+  for (mname, builder, start, finish, ft, uf, exponent) in fits:
+    model = builder()
     model.compile(loss="mse", optimizer="sgd")
     cb = QNoiseScheduler(start, finish, freq_type=ft, update_freq=uf, exponent=exponent)
+    ljson, objs = _layers_json(tf, model.layers)     # pre-training state of every quantizer
     log = []
 
     class Rec(tf.keras.callbacks.Callback):
@@ -933,51 +1097,65 @@ def stream_layers(run, tier, Q, tf, rng):
       def on_epoch_end(self, epoch, logs=None):
         log.append(("e", cb.qnoise_factor))
 
-    xs = rng.uniform(-1, 1, size=(12, 4)).astype(np.float32)
-    ys = rng.uniform(-1, 1, size=(12, 2)).astype(np.float32)
-    model.fit(xs, ys, epochs=5, batch_size=4, verbose=0, callbacks=[cb, Rec()])
+    in_shape = tuple(model.input_shape[1:])
+    out_dim = int(model.output_shape[-1])
+    xs = rng.uniform(-1, 1, size=(12,) + in_shape).astype(np.float32)
+    ys = rng.uniform(-1, 1, size=(12,) + tuple(model.output_shape[1:-1]) + (out_dim,)).astype(np.float32)
+    try:
+      model.fit(xs, ys, epochs=5, batch_size=4, verbose=0, callbacks=[cb, Rec()])
+    except Exception as e:  # pylint: disable=broad-except
+      run.case(("fit", mname, start, finish, ft, uf, exponent))
+      run.violate("hook_raises", {"hook": "model.fit", "model": mname, "error": type(e).__name__},
+                  {"fit": (mname, start, finish, ft, uf, exponent), "error": repr(e)[:300],
+                   "replay": "model.fit(<%s model>, callbacks=[QNoiseScheduler(%d, %d, %r, %d, exponent=%r)]) raises"
+                             % (mname, start, finish, ft, uf, exponent)}, mirrored=False)
+      continue
     ev = [e for e, _ in log]
     facts = [None if f is None else core.frac(float(f)) for _, f in log]
     n_ticks = sum(1 for e in ev if e == ("E" if ft == "epoch" else "B"))
-    got = cb.get_quantizers(model)
-    ljson = []
-    tag = 0
-    for layer in model.layers:
-      d = {"hidden": []}
-      if hasattr(layer, "quantizers"):
-        d["quantizers"] = []
-        for q in layer.quantizers:
-          # pre-training state: unbuilt python float 1.0 (fresh model)
-          d["quantizers"].append({"tag": tag, "kind": _qkind(q), "store": "py", "v": [1, 1], "built": False,
-                                  "use_vars": False, "use_ste": True})
-          tag += 1
-      if hasattr(layer, "quantizer"):
-        q = layer.quantizer
-        d["quantizer"] = {"tag": tag, "kind": _qkind(q), "store": "py", "v": [1, 1], "built": False,
-                          "use_vars": False, "use_ste": True}
-        tag += 1
-      ljson.append(d)
     line = {"op": "sched", "cfg": {"start": start, "finish": finish, "step_mode": ft == "step", "update_freq": uf,
                                     "initial": 0, "use_ste": True},
             "layers": ljson, "events": ev, "table": _pw_table(start, finish, exponent, 0, n_ticks + 1)}
     out = core.run_driver("C07", [line])[0]
-    mf = [None if s["factor"] is None else core.unrj(s["factor"]) for s in out["steps"]]
-    run.case(("fit", start, finish, ft, uf, exponent), sample={"fit": (start, finish, ft, uf, exponent),
-                                                               "hooks": "".join(ev)})
+    mf = [None if s_["factor"] is None else core.unrj(s_["factor"]) for s_ in out["steps"]]
+    run.case(("fit", mname, start, finish, ft, uf, exponent),
+             sample={"fit": (mname, start, finish, ft, uf, exponent), "hooks": "".join(ev),
+                     "tracked": len(cb.quantizers or [])})
     run.compared += 1
     run.count("fit_runs")
+    mirrored = True
     if ev[0] != "T":
-      run.disagree("fit-hook-order", {"fit": (start, finish, ft)}, "".join(ev), "T first")
+      run.disagree("fit-hook-order", {"fit": (mname, start, finish, ft)}, "".join(ev), "T first")
+      mirrored = False
     if mf != facts:
       i = [k for k in range(len(mf)) if mf[k] != facts[k]][0]
-      run.disagree("fit", {"fit": (start, finish, ft, uf, exponent), "hooks": "".join(ev), "at": i},
+      run.disagree("fit", {"fit": (mname, start, finish, ft, uf, exponent), "hooks": "".join(ev), "at": i},
                    None if facts[i] is None else float(facts[i]), None if mf[i] is None else float(mf[i]))
-    final = [float(q.qnoise_factor.numpy()) if isinstance(q.qnoise_factor, tf.Variable) else float(q.qnoise_factor)
-             for q in got]
-    if facts[-1] is not None and any(core.frac(np.float32(v)) != core.frac(np.float32(float(facts[-1]))) for v in final):
-      run.violate("applied_to_every_tracked_quantizer", {"model": "fit", "freq_type": ft},
-                  {"fit": (start, finish, ft, uf, exponent), "final_factor": float(facts[-1]), "quantizers_hold": final},
-                  mirrored=mf == facts)
+      mirrored = False
+    # tracked objects after training: identities and values against the model's final state
+    ids = {id(o): t for t, o in enumerate(objs)}
+    got_final = [(ids.get(id(q), -1), core.unrj(_obs(tf, q)["v"])) for q in (cb.quantizers or [])]
+    mq = out["steps"][-1]["quantizers"] or []
+    model_final = [(q["tag"], core.unrj(q["v"])) for q in mq]
+    run.compared += 1
+    if got_final != model_final:
+      run.disagree("fit-final", {"fit": (mname, start, finish, ft, uf, exponent)},
+                   [(t, float(v)) for t, v in got_final], [(t, float(v)) for t, v in model_final])
+      mirrored = False
+    if facts[-1] is not None:
+      want = core.frac(np.float32(float(facts[-1])))
+      for path, q in _walk_model(tf, model.layers, BaseQuantizer):
+        run.count("fit_holder_%s" % _holder(path))
+        v = core.unrj(_obs(tf, q)["v"])
+        if core.frac(np.float32(float(v))) != want:
+          run.violate("applied_to_every_knob_quantizer_of_model", {"holder": _holder(path)},
+                      {"fit": (mname, start, finish, ft, uf, exponent), "final_factor": float(want),
+                       "quantizer": q.__class__.__name__, "held_in": ".".join(path), "holds": float(v),
+                       "replay": "model.fit(<%s model>, callbacks=[QNoiseScheduler(%d, %d, %r, %d, exponent=%r)]): the "
+                                 "%s held in %s keeps qnoise_factor %s" % (mname, start, finish, ft, uf, exponent,
+                                                                          q.__class__.__name__, ".".join(path), float(v))},
+                      mirrored=mirrored)
+          break
 
 
 # --------------------------------------------------------------------------- entry
@@ -989,7 +1167,7 @@ def run(run: core.Run, tier: str):
   rng = np.random.default_rng(run.seed)
   run.extra["rule"] = (
       "A: 18 class configurations (all six knob-bearing classes, both return sites of quantized_bits) x "
-      "use_ste x 5 storage routes x factors {0,1/4,1/2,3/4,1} + non-dyadic and seeded random factors, on a "
+      "use_ste x 6 storage routes x factors {0,1/4,1/2,3/4,1} + non-dyadic and seeded random factors, on a "
       "vector of every multiple of 1/16 in [-3,3] + saturating / tiny / seeded random inputs; non-trivial = "
       "distinct (configuration, form, route, factor). B: every operation sequence over {build(T), build(F), "
       "update(a), update(b), use_variables=True, call, update(<tf.Variable>)} up to length 3 (4 for "
@@ -997,9 +1175,11 @@ def run(run: core.Run, tier: str):
       "length 5-6 with non-dyadic values; non-trivial = distinct (class, initial state, sequence). C: seeded "
       "subset (all in thorough) of 810 (start, finish, exponent, update_freq, freq_type, initial) x one "
       "fit-shaped + random 12-event histories over {train_begin, epoch_begin, batch_begin, epoch_end, forward} "
-      "on 7 stub models, plus every history up to length 4 (6 in thorough) over {T,E,B,F} for 4 configurations "
-      "x 2 models; non-trivial = distinct (configuration, model, history). D: get_quantizers on 6 real models "
-      "+ a real model.fit.")
+      "on 10 stub models (quantizers in quantizers / quantizer / get_quantizers() / activation / "
+      "recurrent_activation, cells, wrappers, nested models, shared objects, quantized_linear), plus every "
+      "history up to length 4 (6 in thorough) over {T,E,B,F} for 4 configurations x 3 models; non-trivial = "
+      "distinct (configuration, model, history). D: get_quantizers on 13 real models + real model.fit runs "
+      "(1 quick, 4 thorough) on models holding quantizers in every kind of place.")
   stream_mix(run, tier, Q, tf, rng)
   stream_storage(run, tier, Q, tf, rng)
   stream_sched(run, tier, Q, tf, rng)
@@ -1010,6 +1190,6 @@ def run(run: core.Run, tier: str):
       "the executable rnd32/rnd64 are IEEE-754 round-to-nearest-even without overflow handling (proved: monotone on "
       "the non-negatives, fix 0 and 1 — Lemmas/Rnd.lean; that they ARE the hardware rounding is validated by the "
       "bit-for-bit tie only)",
-      "quantizer objects shared between layers (aliasing) are modelled by value",
+      "quantizer objects are modelled by value with an identity tag; an object shared between layers is tracked once",
       "tf.stop_gradient is the identity on values (gradients are property C06)",
   ]
